@@ -517,3 +517,28 @@ Proof.
 Qed.
 
 End Linear.
+
+(* ---------------------------------------------------------------- bounded wait; where disconnect() can raise *)
+Lemma nth_error_set_nth : forall {A} (l : list A) i c v, nth_error l i = Some c -> nth_error (set_nth i v l) i = Some v.
+Proof. induction l; destruct i; simpl; intros; try discriminate; eauto. Qed.
+
+Lemma wait_bounded : forall R2R ERR reqs s i, nth_error (cs s) i = Some CWait ->
+  enabled s (TC i) ATimeout = true /\
+  exists o, nth_error (cs (cstep R2R ERR reqs s (TC i, ATimeout))) i = Some (CDone o).
+Proof.
+  intros R2R ERR reqs s i H. split.
+  - unfold enabled. rewrite H. apply orb_true_r.
+  - unfold cstep, caller_step, finish; simpl. rewrite H.
+    destruct (memb i (evset s)); [destruct (rassoc i (replies s))|]; simpl; eexists;
+      eapply nth_error_set_nth; eauto.
+Qed.
+
+Lemma dstep_raises : forall s d, snd (dstep s d) = DExc -> d = DExc \/ (d = DMark /\ txset s = false).
+Proof.
+  intros s d. destruct d; simpl; auto;
+    unfold post_drain, after_tx, rel_begin, rel_loop_in;
+    repeat match goal with
+    | |- context[match ?x with _ => _ end] => destruct x eqn:?; simpl
+    | |- context[if ?x then _ else _] => destruct x eqn:?; simpl
+    end; intro H; try discriminate; auto.
+Qed.
